@@ -2,6 +2,7 @@
 import PjVerif.Drive.Cal
 import PjVerif.Drive.Graph
 import PjVerif.Spec.Sched
+import PjVerif.Spec.Sched2
 import PjVerif.Model.Clone
 open Lean
 namespace Pj.Drive
@@ -105,19 +106,24 @@ def runSched (j : Json) : Json :=
             res := keys.map (fun k => (k, calOf res0 k)) }
     else .error (parseErr implOut)
   let hyps : List (String × Bool) :=
-    [("noSummaryLinks", noSummaryLinks env), ("consistentFixed", consistentFixed env f0)]
+    [("noSummaryLinks", noSummaryLinks env), ("consistentFixed", consistentFixed env f0),
+     ("clockBeforeStartDay", clockBeforeStartDay env (4 * env.n + 4)),
+     ("clockLeBound", (List.range (4 * env.n + 5)).all (fun k => decide (env.clock k ≤ env.bound))), ("noFixedDates", noFixedDates env f0),
+     ("outsideLeaves", outsideLeaves env), ("mustDiagnose", c14MustDiagnose env0 f00 fwd)]
   let mons : List (String × Bool) := match implRes with
-    | .error _ => [("c14Outcome", c14Outcome implRes)]
+    | .error _ => [("c14Outcome", c14Outcome implRes), ("c14Diagnosed", c14Diagnosed env0 f00 fwd implRes)]
     | .ok o =>
-      [("c14Outcome", true),
+      [("c14Outcome", true), ("c14Diagnosed", c14Diagnosed env0 f00 fwd implRes),
        ("c03Positive", c03Positive o), ("c03OwnResource", c03OwnResource env o), ("c03CapacityDay", c03CapacityDay o),
        ("c03NoOverAlloc", c03NoOverAlloc env o), ("c03Resources", c03Resources env res0 o),
        ("c04Amount", c04Amount env f0 o), ("c04OncePerDay", c04OncePerDay o), ("c04Window", c04Window env fwd o),
        ("c04None", c04None env f0 o),
        ("c07StartLeEnd", c07StartLeEnd env o), ("c07Rollup", c07Rollup env o)] ++
       (if fwd then [("c04StartFirstDay", c04StartFirstDay env f0 o), ("c04EndLastDay", c04EndLastDay env f0 o),
-                    ("c04FixedKept", c04FixedKept env f0 o), ("c02Leaf", c02Leaf env f0 o), ("c02Milestone", c02Milestone env o)]
-       else [("c04BwdStartFirstDay", c04BwdStartFirstDay env f0 o)])
+                    ("c04FixedKept", c04FixedKept env f0 o), ("c02Leaf", c02Leaf env f0 o), ("c02Milestone", c02Milestone env o),
+                    ("c08NoIdle", c08NoIdle env f0 o), ("c08Encode", c08Encode env f0 o), ("c08Order", c08Order env o)]
+       else [("c04BwdStartFirstDay", c04BwdStartFirstDay env f0 o), ("c09Deadline", c09Deadline env o), ("c09Deps", c09Deps env o),
+             ("c09LatePacked", c09LatePacked env o), ("c09Encode", c09Encode env o)])
   mkObj [("id", fld j "id"), ("model", modelOut), ("mon", boolsOut mons), ("hyp", boolsOut hyps)]
 
 end Pj.Drive
